@@ -63,6 +63,11 @@ type Case struct {
 	Observe bool   `json:"observe,omitempty"` // container part: read Values() after every step (and inside the listener)
 	N       int    `json:"n,omitempty"`       // glue/subset/build: number of seeded values
 	Ops     []Op   `json:"ops"`
+	// e2e part: scenario name + the explorer's choice sequence
+	Scenario string   `json:"scenario,omitempty"`
+	Choices  []int    `json:"choices,omitempty"`
+	Msg      string   `json:"msg,omitempty"`
+	Trace    []string `json:"trace,omitempty"`
 }
 
 // failure is the error type returned by the Run functions: it carries the cause class.
